@@ -64,7 +64,14 @@ func (p *Properties) UnmarshalXML(d *xml.Decoder, start xml.StartElement) error 
 }
 
 func (p *Properties) merge(parent Properties) {
-	p.Properties = append(parent.Properties, p.Properties...)
+	// In a slice of its own: appending to the parent's would write into its
+	// spare capacity, which every child of that parent shares.
+	if len(parent.Properties) == 0 {
+		return
+	}
+	merged := make([]Property, 0, len(parent.Properties)+len(p.Properties))
+	merged = append(merged, parent.Properties...)
+	p.Properties = append(merged, p.Properties...)
 }
 
 // propertyMap returns the property map with project properties and
